@@ -347,6 +347,10 @@ pub fn random_op(db: &mut Database, ctx: &mut Ctx, rng: &mut Rng, allow_nonempty
                 if rng.chance(2, 3) {
                     // (an empty name is legal)
                     g.name = if rng.chance(1, 6) { String::new() } else { format!("renamed{}", t) };
+                } else if rng.chance(1, 3) {
+                    // only the (custom) icon changes
+                    if rng.chance(1, 2) { g.custom_icon_uuid = if g.custom_icon_uuid.is_some() && rng.chance(1, 3) { None } else { Some(Uuid::from_u128(0xC0DE_0000 + t as u128)) }; }
+                    else { g.icon_id = Some(t as usize % 60); }
                 } else {
                     g.notes = Some(format!("notes{}", t));
                     g.is_expanded = !g.is_expanded;
